@@ -33,7 +33,7 @@ def run(ctx):
     def chk(case):
         _p[0](case, ctx)
 
-    ctx.run_hypothesis(gfi_hist.st_history(CFG, kinds=KINDS, nops=(1, 3)).map(_expand), chk, ctx.pick(9, 9), salt="main")
+    ctx.run_hypothesis(gfi_hist.st_history(CFG, kinds=KINDS, nops=(1, 3)).map(_expand), chk, ctx.pick(6, 6), salt="main")
 
 
 replay = _p[2]
